@@ -19,13 +19,13 @@ possibly live on different goroutines; a row is also paired with itself) is orde
 with an exclusive side, by construction-before-publication, by a single-goroutine role, or by a
 channel-close edge. -/
 theorem C11_lock_discipline : raceFree accesses :=
-  (raceFreeW_iff accesses).mp (by decide +kernel)
+  raceFreeG_sound accesses (by decide +kernel)
 
 -- The table is not trivially race free: it contains conflicting pairs of live rows in different functions.
 table_obligation in
 set_option maxRecDepth 100000 in
-example : (accesses.any fun a => accesses.any fun b =>
-    conflictB a b && a.phase == Phase.live && b.phase == Phase.live && a.fn != b.fn) = true := by
-  decide +kernel
+example : ∃ a ∈ accesses, ∃ b ∈ accesses,
+    conflict a b ∧ a.phase = Phase.live ∧ b.phase = Phase.live ∧ a.fn ≠ b.fn :=
+  exists_live_conflict accesses (by decide +kernel)
 
 end ScVerif.C11
